@@ -350,8 +350,9 @@ def check_frame(ctx, X, spec, expect, ordered, index_kept):
 
     # ---- contracts of the plumbing
     ref_sig = U.frame_sig(ref)
-    if sum((U.frame_sig(p) for p in parts), []) != ref_sig or \
-            (X.npartitions != nparts and last != 'pack'):
+    if X.npartitions != nparts:
+        rep.count('npartitions-attribute-differs-from-computed:' + last)   # not promised by C06
+    if sum((U.frame_sig(p) for p in parts), []) != ref_sig:
         viol(ctx, 'contract:compute-is-not-concat:' + last,
              'X.compute() differs from the concatenation of the partitions of X', spec)
         return
@@ -401,7 +402,14 @@ def check_frame(ctx, X, spec, expect, ordered, index_kept):
         viol(ctx, 'total_bounds-differ:' + last,
              f'Dask total_bounds {tb} but the pandas frame has {rtb}', spec)
     ftb = tuple(float(v) for v in X.geometry.partition_sindex.total_bounds)
-    keys_arr = [int(k) for k in X.partition_sindex._keys]
+    try:
+        # the order in which the real index stores the partition boxes (an internal of
+        # HilbertRtree); the model's answers do not depend on it (C03_independent)
+        keys_arr = [int(k) for k in X.partition_sindex._keys]
+        assert sorted(keys_arr) == list(range(nparts))
+    except Exception:
+        rep.count('internal-unavailable:sindex-keys')
+        keys_arr = list(range(nparts))
 
     # ---- elementwise operations
     for name in ('bounds', 'area', 'length'):
@@ -479,21 +487,20 @@ def check_frame(ctx, X, spec, expect, ordered, index_kept):
         cp = X.cx_partitions[xs, ys]
         cparts = U.compute_parts(cp)
         got = set()
-        pos = 0
         whole = True
+        avail = list(part_sigs)
         for c in cparts:
             cs = U.frame_sig(c)
             got.update(c['v'].tolist())
-            if len(cs) == 0 and not any(len(s) == 0 for s in part_sigs) and len(cparts) == 1:
-                continue   # the empty frame returned when nothing is selected
-            while pos < nparts and part_sigs[pos] != cs:
-                pos += 1
-            if pos == nparts:
+            if cs in avail:
+                avail.remove(cs)       # every returned partition is a partition of X, once
+            elif len(cs) == 0:
+                pass                   # the empty frame returned when nothing is selected
+            else:
                 whole = False
-            pos += 1
         if not whole:
             viol(ctx, 'cx_partitions-not-whole:' + last,
-                 f'cx_partitions[{key}] is not an ascending selection of whole partitions',
+                 f'cx_partitions[{key}] does not consist of whole partitions of the frame',
                  spec, key=key)
         if not set(pr['v'].tolist()) <= got:
             viol(ctx, 'cx_partitions-misses-row:' + last,
@@ -597,24 +604,57 @@ def run_spec(ctx, spec):
             shutil.rmtree(d, ignore_errors=True)
 
 
+CANON_FN = ("fun c => let '(a, b, t, l) := c06_case c in "
+            "(a, b, t, map (fun x => (List.concat (snd (fst x)), snd x)) l)")
+CANON_RES_TY = 'list bbox * bbox * row * list (list nat * list nat)'
+SJ_CANON_FN = "fun c => let (d, p) := c06_sjoin_case c in (sort_nat (List.concat d), p)"
+SJ_CANON_RES_TY = 'list nat * list nat'
+
+
+def canon(res):
+    """what C06 promises of a result: bounds, total bounds, the ROWS of cx[key] in order
+    (not how they are split into partitions, not which partitions cx_partitions selects
+    beyond the promise checked directly in check_frame)"""
+    pbs, tb, ftb, per_key = res
+    return (pbs, tb, ftb, [(sum(cx, []), pd) for _cp, cx, pd in per_key])
+
+
+def sj_canon(res):
+    dparts, pj = res
+    return (sorted(sum(dparts, []), key=int), pj)
+
+
 def flush(ctx):
     rep = ctx.rep
+    # strict: the model of the code as it is (which partitions are read, how the result is
+    # split); a strict difference alone is not a violation of C06: it is re-examined on
+    # what the property promises
     bad = C.coq_mismatches(IMPORTS, FN, CASE_TY, RES_TY, ctx.cases, ctx.results, shard=40)
-    for i in bad[:10]:
-        model = C.coq_eval(IMPORTS, f'{FN} {C.coq(ctx.cases[i])}')
-        rep.violation('model-differs:' + ctx.metas[i]['steps'][-1][0],
-                      'partition_bounds / total_bounds / the partitions read by cx or '
-                      'cx_partitions differ from Model/DaskModel.v',
-                      {'spec': ctx.metas[i], 'case': ctx.cases[i], 'impl': ctx.results[i],
-                       'model': model})
+    if bad:
+        cases = [ctx.cases[i] for i in bad]
+        bad2 = C.coq_mismatches(IMPORTS, CANON_FN, CASE_TY, CANON_RES_TY, cases,
+                                [canon(ctx.results[i]) for i in bad], shard=40)
+        rep.count('model-structure-differs-rows-agree', len(bad) - len(bad2))
+        for i in [bad[j] for j in bad2][:10]:
+            model = C.coq_eval(IMPORTS, f'{FN} {C.coq(ctx.cases[i])}')
+            rep.violation('model-differs:' + ctx.metas[i]['steps'][-1][0],
+                          'partition_bounds / total_bounds / the rows of cx differ from '
+                          'Model/DaskModel.v',
+                          {'spec': ctx.metas[i], 'case': ctx.cases[i], 'impl': ctx.results[i],
+                           'model': model})
     bad = C.coq_mismatches(IMPORTS, SJ_FN, SJ_CASE_TY, SJ_RES_TY, ctx.sj_cases, ctx.sj_results,
                            shard=40)
-    for i in bad[:10]:
-        model = C.coq_eval(IMPORTS, f'{SJ_FN} {C.coq(ctx.sj_cases[i])}')
-        rep.violation('sjoin-model-differs:' + ctx.sj_metas[i]['how'],
-                      'the per-partition results of sjoin differ from Model/DaskModel.v',
-                      {'spec': ctx.sj_metas[i], 'case': ctx.sj_cases[i],
-                       'impl': ctx.sj_results[i], 'model': model})
+    if bad:
+        cases = [ctx.sj_cases[i] for i in bad]
+        bad2 = C.coq_mismatches(IMPORTS, SJ_CANON_FN, SJ_CASE_TY, SJ_CANON_RES_TY, cases,
+                                [sj_canon(ctx.sj_results[i]) for i in bad], shard=40)
+        rep.count('sjoin-model-structure-differs-rows-agree', len(bad) - len(bad2))
+        for i in [bad[j] for j in bad2][:10]:
+            model = C.coq_eval(IMPORTS, f'{SJ_FN} {C.coq(ctx.sj_cases[i])}')
+            rep.violation('sjoin-model-differs:' + ctx.sj_metas[i]['how'],
+                          'the joined rows differ from Model/DaskModel.v',
+                          {'spec': ctx.sj_metas[i], 'case': ctx.sj_cases[i],
+                           'impl': ctx.sj_results[i], 'model': model})
     rep.extra['model_cases'] = len(ctx.cases)
     rep.extra['sjoin_model_cases'] = len(ctx.sj_cases)
 
